@@ -1,3 +1,4 @@
+\* P level (verdict: the trace must be consumed) + M level (StackOK: drift)
 CONSTANTS
   MaxArg = 3
   MaxNodes = 4
